@@ -159,6 +159,49 @@ def find_escapers(F):
     return out
 
 
+def escaper_fold_rule(F, rep, escapers):
+    """R18.9: the recognised escaper, folded (abstract-string engine; the loop over the characters of a literal text is unrolled, nothing of the repository runs) on every
+    ASCII character, a few beyond and some mixed texts, yields a JSON string literal that decodes to exactly the input - the structural recognition of R18.1 only says that
+    arms for the quote, the backslash and control characters exist, this rule says what they produce."""
+    import json as _json
+    import strfold
+    from hireval import Evaluator, TooManyPaths
+    rid = rep.rule("R18.9", "the JSON string escaper, folded on every ASCII character (and a few beyond), yields a JSON string literal that decodes to exactly the input text")
+    texts = [chr(i) for i in range(0, 128)] + ["\u0080", "\u00e9", "\u2028", "\U0001F600", "", "say \"hi\"", "a\\b\nc\td", "\u0001\u001f \"\\"]
+    texts = [t.encode().decode("unicode_escape") if "\\u" in repr(t) or "\\U" in repr(t) else t for t in texts]
+    for fn in sorted(escapers):
+        h = F.hir.get(fn)
+        if h is None:
+            continue
+        probs, und = [], 0
+        for t in texts:
+            ev = Evaluator(F, ints=True, max_paths=400)
+            sf = strfold.StrFold(ev)
+            ev.call_hook = sf.hook
+            try:
+                outs = ev.run(h["params"], h["body"], [("lit", t)])
+            except (TooManyPaths, ValueError, KeyError, RecursionError):
+                outs = None
+            vals = {strfold.render(strfold.as_str(v)) if strfold.as_str(v) is not None and all(a[0] == "c" for a in strfold.as_str(v)[1]) else None for _, v in (outs or [(None, None)])}
+            if len(vals) != 1 or None in vals:
+                und += 1
+                continue
+            got = vals.pop()
+            try:
+                dec = _json.loads(got)
+            except ValueError:
+                dec = None
+            if dec != t and len(probs) < 3:
+                probs.append("%r is rendered %s, which %s" % (t, got, "is not a JSON string" if dec is None else "decodes to %r" % dec))
+        key = "escaper:%s" % fn.split("::")[-1]
+        if probs:
+            rep.violation(rid, key, "%s: %s" % (fn, "; ".join(probs)), "%s:%s" % (h["file"], h["line"]))
+        elif und:
+            rep.undecided(rid, key, "%d of %d representative texts do not fold to a literal text" % (und, len(texts)))
+        else:
+            rep.ok(rid, key, "%d texts (all 128 ASCII characters, non-ASCII samples, mixed texts) decode to themselves" % len(texts))
+
+
 def run(F, rep, tier):
     rep.explanation = ("(1) taint rule over every Jsonify impl and over the hand-built evaluate response: text interpolated into JSON output must be a constant, "
                        "a jsonify() result, a scalar rendering or pass through a JSON string escaper; (2) each route's handler must reach exactly the workspace "
@@ -170,6 +213,7 @@ def run(F, rep, tier):
     r4 = rep.rule("R18.4", "results of RwLock::read/write are matched, never unwrapped, in the server")
     escapers = find_escapers(F)
     rep.analysed["json_escapers_recognised"] = sorted(escapers)
+    escaper_fold_rule(F, rep, escapers)
 
     # ---------------- R18.1
     all_impls = {n: h for n, h in F.hir.items() if n.endswith("as dmntk_common::jsonify::Jsonify>::jsonify")}
